@@ -386,6 +386,16 @@ impl<'tcx> M<'tcx> {
                             let vals: Vec<(u128, BasicBlock)> = targets.iter().collect();
                             let ow = &body.basic_blocks[targets.otherwise()];
                             let dead_otherwise = ow.statements.is_empty() && matches!(ow.terminator().kind, TerminatorKind::Unreachable);
+                            // a discriminant already decided on this path keeps its outcome (no contradictory re-decision)
+                            let prior: Vec<i128> = self.conds.iter().filter(|(ct, _)| *ct == t).map(|(_, v)| *v).collect();
+                            if let Some(pv) = prior.iter().find(|v| **v >= 0) {
+                                bb = targets.target_for_value(*pv as u128);
+                                continue;
+                            }
+                            if !prior.is_empty() && vals.iter().all(|(v, _)| prior.contains(&(-1 - (*v as i128)))) {
+                                bb = targets.otherwise();
+                                continue;
+                            }
                             let c = self.decide(vals.len() + if dead_otherwise { 0 } else { 1 });
                             if c < vals.len() {
                                 self.conds.push((t, vals[c].0 as i128));
